@@ -126,6 +126,55 @@ def oblig(r):
     return obs
 
 
+def ranges_midrun(kind, dim, nsteps0, then):
+    """public API only: `nsteps0` Steps from an arbitrary start, THEN SetStrictRanges(lo, hi) (arbitrary box), then either a
+    Solve whose generation limit is already met (`solve0`: reports without iterating) or one more Step: what is reported
+    (and, for NM/DE, every stored member) is still a point with its true energy"""
+    from symex import stubs
+
+    def h(ctx):
+        w = L.World(ctx, dim, box=False, cons=None)
+        lo, hi = ctx.reals('lo', dim), ctx.reals('hi', dim)
+        for a, b in zip(lo, hi):
+            ctx.assume(le(a, b))
+        s = S.make_solver(kind, dim)
+        L.configure(s, w)
+        if kind == 'Powell':
+            S.install_brent_contract(ctx)
+        x0 = ctx.reals('x', dim)
+        if kind in ('DE', 'DE2'):
+            for i in range(s.nPop):
+                s.population[i] = [x0[j] + i for j in range(dim)]
+            stubs.ORACLE.override = S.FixedDraws()
+        else:
+            s.population[0] = list(x0)
+        try:
+            for k in range(nsteps0):
+                s.Step()
+            w.lo, w.hi = lo, hi
+            s.SetStrictRanges(L.arr(lo), L.arr(hi))
+            if then == 'solve0':
+                s.SetEvaluationLimits(generations=0, new=True)
+                s.Solve()
+            else:
+                s.Step()
+        finally:
+            stubs.ORACLE.override = None
+        pop, en, b1, be1 = L.state_of(s)
+        obs = []
+        if not isinf(be1):
+            # (a point kept from before the box was imposed may lie outside it: its true cost is then still a truthful energy)
+            obs.append(('best-energy-is-cost+penalty-at-best', eq(be1, w.raw(b1))))
+            obs.append(('best-was-evaluated', w.was_called_at(b1)))
+        if kind != 'Powell':
+            for i in range(len(pop)):
+                if not isinf(en[i]):
+                    obs.append(('member-energy-is-cost+penalty-at-member[%d]' % i, eq(en[i], w.raw(pop[i]))))
+        obs.append(('ran', const(True)))
+        return obs
+    return h
+
+
 def step_instances(tier, oblig, configs=None, **kw):
     """the common grid of step scenarios (also used by C02-C04 with their own obligations)"""
     out = []
@@ -194,6 +243,13 @@ def instances(tier, seed):
     if not q:
         out.append(Instance('nm-restart/box+cons+pen/dim=1', S.nm_step('box+cons+pen', 1, oblig, restart=True)))
         out.append(Instance('nm-restart/plain/dim=2', S.nm_step('plain', 2, oblig, restart=True)))
+    # strict ranges imposed on a solver that has already evaluated points
+    for kind in ('NM', 'Powell', 'DE'):
+        for then in ('solve0', 'step'):
+            for n0 in ((1,) if q else (1, 2, 3)):
+                if kind == 'DE' and (n0 > 2 or (n0 > 1 and then == 'step')):
+                    continue
+                out.append(Instance('ranges-midrun/%s/after-%d-steps/%s/dim=1' % (kind, n0, then), ranges_midrun(kind, 1, n0, then), qtimeout=4000))
     # ensembles: the reduction kernel (reported pair = a best member's pair, also after the members progressed in step mode)
     from harness import c09
     for ek in ('lattice', 'buckshot'):
